@@ -70,9 +70,12 @@ def sqlObs (s : Sql String) : J :=
     | some r => J.arr [S n, J.str r.data, J.str r.md5]
     | none => J.arr [S n, J.null, J.null]
   J.obj [("c", J.arr (s.cCache.map row)), ("nc", J.arr (s.ncCache.map row)),
+         -- `read('logs/<name>')` selects by log_name and takes the first row
          ("logs", J.arr (s.logRows.filterMap fun r =>
             match r.name with
-            | some n => some (J.arr [S n, optD r.data])
+            | some n =>
+              let first := s.logRows.find? (fun q => q.name == some n)
+              some (J.arr [S n, optD (match first with | some q => q.data | none => none)])
             | none => none))]
 
 open CogentModel.DataStoreSqlite in
